@@ -127,3 +127,20 @@ End C02b.
 Print Assumptions C02_error_bounded_by_truncation.
 Print Assumptions C02_stability.
 Print Assumptions C02_robin_closure.
+
+(* stability for fields that satisfy the boundary rows of the assembled system: hypotheses on the data only (Theory/ClosureThy.v) *)
+From PFV Require Import ClosureThy.
+Theorem C02_stability_of_solutions : forall (m : Mesh ROps) (bc : BCs ROps) (D u : fvar ROps),
+  interior_cells ROps m <> nil ->
+  (forall c a, In c (interior_cells ROps m) -> In a (active_axes ROps m) -> (1 <= cidx a c <= mN ROps m a)%nat /\ signs_ok m D c a) ->
+  (forall c, In c (interior_cells ROps m) -> rsuml (fun a => divrow ROps m u a c) (active_axes ROps m) = 0%R) ->
+  bc_sign_ok m bc ->
+  forall (kap x e f g : cvar ROps) (E : R),
+  bc_rows m bc x -> bc_rows m bc e ->
+  (forall c, In c (interior_cells ROps m) -> Lrow m D u kap x c = f c) ->
+  (forall c, In c (interior_cells ROps m) -> Lrow m D u kap e c = g c) ->
+  (forall c, In c (interior_cells ROps m) -> (0 < kap c)%R) ->
+  (0 <= E)%R -> (forall c, In c (interior_cells ROps m) -> (Rabs (f c - g c) <= kap c * E)%R) ->
+  forall c, In c (interior_cells ROps m) -> (Rabs (x c - e c) <= E)%R.
+Proof. exact stability_of_solutions. Qed.
+Print Assumptions C02_stability_of_solutions.
